@@ -168,7 +168,7 @@ def r3_best_memories(ctx):
             k = size + (1 if has_best else 0)
             for order in (weak_orderings(k) if k else [()]):
                 def bv(interp, env, f, args):
-                    return Ref(home, []) if (f.get("gargs") or [""])[0].startswith(PSO + "BestParticle<") else TOP
+                    return Ref(home, [], frame="root") if (f.get("gargs") or [""])[0].startswith(PSO + "BestParticle<") else TOP
                 table = {"mahf::state::State::populations": Sym("populations"), "mahf::state::common::Populations::current": Vec("cur", borrowed=True),
                          "mahf::state::registry::StateRegistry::borrow_value_mut": bv, "mahf::state::registry::StateRegistry::try_borrow_value_mut": lambda i, e, f, a: ok(bv(i, e, f, a))}
                 it = install(Interp(fn.body, chain(mk_oracle(table), coll_oracle, std_oracle), [Sym("self"), Sym("problem"), Sym("state")], facts=F, inline=c07.INLINE, max_visits=12))
